@@ -74,6 +74,7 @@ fn main() {
             "c05_weight_sum" => batch::c05_weight_sum(r),
             "c14" => c14::c14(r),
             "c06_mutations" => c06::c06_mutations(r),
+            "c08" => c06::c08(r),
             "c14_votes" => c14::c14_votes(r),
             "c13_unlock" => c14::c13_unlock(r),
             other => json!({"error": format!("unknown kind {other}")}),
